@@ -68,10 +68,13 @@ PROPS = {
             "parts": [{"pkg": "stress", "test": "TestC13", "race": True,
                        "quick": {"checks": 60, "shards": 4, "shrink": "0s", "timeout": "15m", "env": {"GORACE": "halt_on_error=0"}},
                        "thorough": {"checks": 1500, "shards": 16, "shrink": "0s", "timeout": "3h", "env": {"GORACE": "halt_on_error=0"}}},
-                      BURST("TestC13Burst"),
+                      BURST("TestC13Burst"), STORM("TestC13Race", q=(12, 2)),
                       {"pkg": "stress", "test": "TestC13Real", "race": True,
                        "quick": {"checks": 60, "shards": 4, "shrink": "0s", "timeout": "15m", "env": {"GORACE": "halt_on_error=0"}},
-                       "thorough": {"checks": 1500, "shards": 16, "shrink": "0s", "timeout": "3h", "env": {"GORACE": "halt_on_error=0"}}}]},
+                       "thorough": {"checks": 1500, "shards": 16, "shrink": "0s", "timeout": "3h", "env": {"GORACE": "halt_on_error=0"}}},
+                      {"pkg": "procs", "test": "TestC13Binary", "helpers": ["race:pkg:github.com/Flowpack/prunner/cmd/prunner"],
+                       "quick": {"checks": 4, "shards": 2, "shrink": "0s", "timeout": "15m"},
+                       "thorough": {"checks": 120, "shards": 8, "shrink": "0s", "timeout": "2h"}}]},
     "C14": {"level": "exploration", "assumptions": PURE_ASSUME + ["HMAC-SHA256 is unforgeable; the run's secret never appears in a generated invalid credential unless the harness itself signs with it", "route discovery through the verif-only server.Routes hook + chi.Walk"],
             "parts": [rp("httpauth", "TestC14", (3000, 2), (60000, 8)),
                       rp("httpauth", "TestC14Concurrent", (40, 2), (1500, 8), race=True),
